@@ -24,6 +24,7 @@ enum {
   MPIR_VERIF_MUL_TOOM3, MPIR_VERIF_MUL_TOOM32, MPIR_VERIF_MUL_PIECES,
   MPIR_VERIF_FFT_TRUNC = 20, MPIR_VERIF_FFT_MFA,
   MPIR_VERIF_SB_DIV_N1_EQ_D1 = 30, MPIR_VERIF_SB_DIV_ADDBACK, MPIR_VERIF_3BY2_SECOND_ADJUST, MPIR_VERIF_TDIV_QR_QUOTIENT_TOO_LARGE,
+  MPIR_VERIF_INV_DIVAPPR_MULTIPLY_OUT,
   MPIR_VERIF_MT_REFILL = 40,
   MPIR_VERIF_PT_TMP_REENTRANT_ALLOC = 50, MPIR_VERIF_PT_MPZ_REALLOC
 };
